@@ -244,7 +244,8 @@ func (vc *VC) constrainSV(v *SV) {
 		case *types.Basic:
 			if u.Info()&types.IsString != 0 {
 				vc.assume(and(app("bvsle", bvLit(64, 0), c[2]), app("bvslt", c[2], bvLit(64, 1<<40)),
-					app("bvsle", bvLit(64, 0), c[1]), app("bvslt", c[1], bvLit(64, 1<<40))))
+					app("bvsle", bvLit(64, 0), c[1]), app("bvslt", c[1], bvLit(64, 1<<40)),
+					implies(eq(c[0], bvLit(refBits, 0)), eq(c[2], bvLit(64, 0)))))
 			}
 		case *types.Pointer:
 			vc.assume(and(app("bvsle", bvLit(64, 0), c[1]), app("bvslt", c[1], bvLit(64, 1<<40))))
